@@ -358,7 +358,10 @@ class SafeLearner(Learner):
             pred   = pred[:-1] if self._pred_kwargs else pred
 
             if self._pred_format.endswith('*'):
+                if self._pred_kwargs: pred = pred[0] #[{hint:values},kwargs]
                 pred = list(pred.values())[0]
+            elif self._pred_format[:2] == 'PM':
+                pred = list(zip(*pred)) #we were given a column for every action
 
             if self._pred_format[:2] == 'PM':
                 A, P = list(map(list, zip(*map(self._rng.choicew,actions, pred))))
